@@ -155,8 +155,38 @@ def _extra(g, rng, k, dims, r):
     elif r < 0.84:
         n = rng.randint(1, 2)
         g.push({"op": "transform", "a": k, "func": "ident", "params": list(range(n)), "dim": g.name("t"), "axis": 0})
-    else:
+    elif r < 0.92:
         _lookup_transform(g, rng, k)
+    else:
+        _more_extras(g, rng, k, dims)
+
+
+def _more_extras(g, rng, k, dims):
+    """same callable with one and with several outputs; static arguments of other types (nested lists, dict-valued
+    keyword arguments, big arrays, objects with the default repr); operations that hand back the action itself"""
+    r = rng.random()
+    if r < 0.30:
+        fn = rng.choice(["neg", "lam1", "keep"])
+        g.push({"op": "map", "a": k, "fn": fn})
+        g.push({"op": "map", "a": k, "fn": fn, "yields": [g.name("y"), [0, 1]]})
+    elif r < 0.40 and dims:
+        d = rng.choice(dims)[0]
+        g.push({"op": "reduce", "a": k, "fn": "first", "dim": d, "bs": 0, "keep": False})
+        g.push({"op": "reduce", "a": k, "fn": "first", "dim": d, "bs": 0, "keep": False, "yields": [g.name("y"), [0, 1]]})
+    elif r < 0.70:
+        a, b = rng.choice([({"kwdict": {"a": 1}}, {"kwdict": {"a": 2}}), ({"kwdict": {"a": 1, "b": "x"}}, {"kwdict": {"b": "x", "a": 1}}),
+                           ({"kwlist": [1, 2]}, {"kwlist": [2, 1]}), ({"nested": [[1, 2], 3]}, {"nested": [[1], 2, 3]}),
+                           ({"int": 1}, {"nested": [1]}), ({"big": "A"}, {"big": "B"}), ({"big": "A"}, {"big": "A"}),
+                           ({"config": 1}, {"config": 2}), ({"config": 1}, {"config": 1}), ({"newconfig": 1}, {"int": 1})])
+        g.push({"op": "map", "a": k, "fn": "keep", "static": a})
+        g.push({"op": "map", "a": k, "fn": "keep", "static": b})
+    else:
+        x = g.push({"op": "alias", "a": k, "how": rng.choice(["select", "iselect"])})
+        if _ok(g, x):
+            if rng.random() < 0.5:
+                g.push({"op": "transform", "a": x, "func": "ident", "params": [0] * rng.randint(1, 2), "dim": g.name("t"), "axis": 0})
+            else:
+                g.push({"op": "map", "a": x, "fn": "neg"})
 
 
 def _lookup_transform(g, rng, k):
@@ -210,6 +240,8 @@ def _pyval(x):
         return [_pyval(y) for y in x]
     if isinstance(x, tuple):
         return {"t": [_pyval(y) for y in x]}
+    if isinstance(x, dict) and all(isinstance(k, str) for k in x):
+        return {"d": [[k, _pyval(v)] for k, v in x.items()]}
     raise TypeError(f"unsupported static {type(x).__name__}")
 
 
@@ -265,6 +297,46 @@ def snapshot(action):
             "nodes": [id(x) for x in (n.data.flat if n.data.shape else [n.data.item()])]}
 
 
+def _static_key(x):
+    """statics compared by value where Python can, by identity otherwise; never raises"""
+    import numpy as np
+    if isinstance(x, np.ndarray):
+        return ("ndarray", x.shape, str(x.dtype), hashlib.sha1(np.ascontiguousarray(x).tobytes()).hexdigest())
+    if isinstance(x, (list, tuple)):
+        return (type(x).__name__, tuple(_static_key(y) for y in x))
+    if isinstance(x, dict):
+        return ("dict", tuple(sorted((repr(k), _static_key(v)) for k, v in x.items())))    # dict equality ignores the order
+    if isinstance(x, (bool, int, float, str, type(None))):
+        return (type(x).__name__, x)
+    if type(x).__eq__ is object.__eq__:
+        return ("object", id(x))
+    return ("value", type(x).__name__, repr(x))
+
+
+def node_content(n):
+    """what a node object holds: name, callable (identity), static arguments, which output of which node object feeds
+    which parameter, outputs"""
+    func, args, kwargs = n.payload
+    return {"name": n.name, "func": id(func), "args": tuple(_static_key(a) for a in args),
+            "kwargs": tuple(sorted((k, _static_key(v)) for k, v in kwargs.items())),
+            "inputs": tuple(sorted((k, id(o.parent), o.parent.name, o.name) for k, o in n.inputs.items())),
+            "outputs": tuple(n.outputs)}
+
+
+def contents_of(actions):
+    return {id(n): (n, node_content(n)) for n in collect_nodes(actions)}
+
+
+def changed_contents(before, after):
+    """(node, field) for nodes that existed before and hold something else now"""
+    out = []
+    for key, (n, c) in before.items():
+        if key in after and after[key][1] != c:
+            now = after[key][1]
+            out.append((n, [f for f in c if c[f] != now[f]]))
+    return out
+
+
 # ----------------------------------------------------------------------------- heap cells (for the heap model of transform)
 
 class NodeIds:
@@ -317,7 +389,7 @@ HEAP_FUNCS = ("lookup", "ident")
 
 # ----------------------------------------------------------------------------- oracle
 
-def oracle_program(prog, heapops=None):
+def oracle_program(prog, heapops=None, union=True, probe_default=False):
     """returns (real env, list of (signature, text, statements involved)); `heapops` collects the
     transforms whose func hands back an existing action, with the heap before and after (model tie)"""
     from ekw import c13_fluent as F
@@ -326,6 +398,7 @@ def oracle_program(prog, heapops=None):
     srcinfo = {}
     pending = {}
     ids = NodeIds()
+    contents = {}
 
     def hook(when, k, st, env):
         live = {i: r for i, r in enumerate(env[:k]) if not isinstance(r, tuple)}
@@ -356,6 +429,16 @@ def oracle_program(prog, heapops=None):
                                  f"statement {k} {st} changed {what} of existing action v{i} ({role}): {snaps[i]['dims']} {snaps[i]['coords']} -> {now['dims']} {now['coords']}",
                                  [k, i]))
                 snaps[i] = now
+            # … and what the node objects of the existing actions hold (name, payload, inputs, outputs)
+            allacts = [r for r in env[:k + 1] if not isinstance(r, tuple)]
+            now = contents_of(allacts)
+            for n, fields in changed_contents(contents, now)[:1]:
+                viol.append(({"kind": "node-mutated", "op": st["op"], "changed": fields[0]},
+                             f"statement {k} {st} changed {fields} of the existing node {n.name[:24]}… of an existing action", [k, _first_stmt_with(env, n)]))
+            contents.clear()
+            contents.update(now)
+            if not isinstance(env[k], tuple) and any(env[k] is env[i] for i in live):
+                prog.setdefault("_aliases", []).append(k)
             if pending:
                 rec = {key: pending[key] for key in ("heap", "a", "kind", "targets", "dim", "axis")}
                 r = env[k]
@@ -367,6 +450,7 @@ def oracle_program(prog, heapops=None):
                     real = None if (res is None or any(c is None for c in after)) else {"heap": after, "result": res}
                 if real is not None:
                     heapops.append((k, rec, real))
+    prog.pop("_aliases", None)
     env = F.run_real(prog, hook=hook)
     # (a) same program twice -> same names
     env2 = F.run_real(prog)
@@ -378,12 +462,32 @@ def oracle_program(prog, heapops=None):
         n1 = _names(r1)
         n2 = _names(r2)
         if n1 != n2:
-            viol.append(({"kind": "not-deterministic", "what": "names"},
-                         f"statement {k} {prog['stmts'][k]}: two builds of the same program in one process give different node names "
-                         f"({_first_diff(n1, n2)})", [k]))
+            sig = {"kind": "not-deterministic", "what": "names"}
+            cause = _address_static(r1)
+            if cause:
+                sig["cause"] = "address-in-repr"
+            viol.append((sig, f"statement {k} {prog['stmts'][k]}: two builds of the same program in one process give different node names "
+                              f"({_first_diff(n1, n2)})" + (f"; a static argument is rendered with its address: {cause}" if cause else ""), [k]))
     # (b) union over shared sources: same name => same computation
     actions = [r for r in env if not isinstance(r, tuple)]
     nodes = collect_nodes(actions)
+    viol += _collisions(nodes, lambda n: _first_stmt_with(env, n), "")
+    # (c) the union on the REAL path: Cascade.from_actions / + / += / deduplicate_nodes / serialise / graph2job
+    if union:
+        try:
+            viol += union_oracle(prog, env2, probe_default)
+        except Exception as e:     # an exception of the union machinery is a result, not a crash of the check
+            sig = {"kind": "union-raises", "error": F.err_class(e)}
+            if isinstance(e, ValueError) and "truth value of an array" in str(e):
+                sig["cause"] = "ndarray-static-compared-with-=="
+            viol.append((sig, f"taking the union of the actions of the program raised {type(e).__name__}: {str(e)[:120]}", list(range(len(prog["stmts"])))))
+    prog["_srcinfo"] = srcinfo
+    return env, viol
+
+
+def _collisions(nodes, stmt_of, where):
+    """two nodes of one graph carry the same name only if they denote the same computation"""
+    out = []
     by_name = {}
     for n in nodes:
         by_name.setdefault(n.name, []).append(n)
@@ -392,12 +496,146 @@ def oracle_program(prog, heapops=None):
         for other in group[1:]:
             cause = _differs(first, other)
             if cause:
-                viol.append(({"kind": "name-collision", "cause": cause},
-                             f"two nodes named {name[:24]}… denote different computations ({cause}): "
-                             f"{_describe(first)} vs {_describe(other)}", [_first_stmt_with(env, first), _first_stmt_with(env, other)]))
+                sig = {"kind": "name-collision", "cause": cause}
+                if where:
+                    sig["where"] = where
+                out.append((sig, f"two nodes named {name[:24]}… {('of the ' + where + ' ') if where else ''}denote different computations ({cause}): "
+                                 f"{_describe(first)} vs {_describe(other)}", [stmt_of(first), stmt_of(other)]))
                 break
-    prog["_srcinfo"] = srcinfo
-    return env, viol
+    return out
+
+
+def _address_static(action):
+    """a static argument of a node of the action whose repr shows a memory address, or None"""
+    import re
+    for n in collect_nodes([action]):
+        for v in list(n.payload[1]) + list(n.payload[2].values()):
+            try:
+                r = repr(v)
+            except Exception:
+                continue
+            if re.search(r" at 0x[0-9a-fA-F]+>", r):
+                return r[:60]
+    return None
+
+
+def _graph_nodes(cascade):
+    return list(cascade._graph.nodes())
+
+
+def _name_bag(nodes):
+    return sorted(n.name for n in nodes)
+
+
+def union_oracle(prog, envB, probe_default=False):
+    """Clause "unions de-duplicate and lowering by name is unambiguous" on the real code. The program is built a third
+    time (envC) so that the builds the other oracles look at are not touched; envB is the second build.
+      U1 from_actions(one build): names unique (else the collision is reported with its cause), serialise and graph2job
+         succeed and key exactly the nodes of the union;
+      U2 from_actions / + / += over two builds of the same program: exactly the nodes of one build (same names, same number);
+      U3 no union changes what an existing union or the node objects of existing actions hold;
+      U4 (witness programs) a new empty Cascade() is empty whatever was united before."""
+    from ekw import c13_fluent as F
+    from earthkit.workflows import Cascade
+    from earthkit.workflows.graph import serialise
+    from cascade.low.into import graph2job
+    out = []
+    every = list(range(len(prog["stmts"])))
+    envC = F.run_real(prog)
+    actsB = [r for r in envB if not isinstance(r, tuple)]
+    actsC = [r for r in envC if not isinstance(r, tuple)]
+    if not actsB or len(actsB) != len(actsC):
+        return out
+    stmt_of = lambda n: _first_stmt_with(envB, n)   # noqa: E731
+    before = contents_of(actsB + actsC)
+    one = Cascade.from_actions(actsB)
+    nodes1 = _graph_nodes(one)
+    bag1 = _name_bag(nodes1)
+    coll = _collisions(nodes1, stmt_of, "cascade-union")
+    out += coll
+    dup = len(set(bag1)) != len(bag1)
+    if dup and not coll:
+        out.append(({"kind": "union-not-deduplicated", "via": "from_actions"},
+                     f"Cascade.from_actions over the actions of ONE build keeps {len(bag1) - len(set(bag1))} equal computations twice", every))
+    # what the program denotes, computed by the harness: one node per distinct (callable, statics, inputs, outputs)
+    want = len(set(_comp_keys(collect_nodes(actsB)).values()))
+    if not dup and len(bag1) != want:
+        out.append(({"kind": "union-not-deduplicated", "via": "from_actions", "what": "count"},
+                     f"Cascade.from_actions holds {len(bag1)} nodes, the actions denote {want} different computations", every))
+    if not dup:
+        try:
+            ser = serialise(one._graph)
+            if sorted(ser) != bag1:
+                out.append(({"kind": "union-not-lowerable", "what": "serialise-keys"}, "serialise(union) does not key exactly the nodes of the union", every))
+            job = graph2job(one._graph)
+            if sorted(job.tasks) != bag1:
+                out.append(({"kind": "union-not-lowerable", "what": "task-names"},
+                             f"graph2job(union) has {len(job.tasks)} tasks for {len(bag1)} uniquely named nodes", every))
+            known = set(bag1)
+            loose = [e for e in job.edges if e.source.task not in known or e.sink_task not in known]
+            if loose:
+                out.append(({"kind": "union-not-lowerable", "what": "edges"}, f"graph2job(union): {len(loose)} edges name tasks that do not exist", every))
+        except AssertionError as e:
+            out.append(({"kind": "union-not-lowerable", "what": "raises"}, f"lowering the uniquely named union raised AssertionError({str(e)[:80]})", every))
+        except Exception:
+            pass     # a static argument the lowering does not accept: not a matter of names (C10)
+    # U2/U3: unions with a second build of the same program
+    same_names = _name_bag(collect_nodes(actsB)) == _name_bag(collect_nodes(actsC))
+    earlier = None
+    for via in ("from_actions", "add", "iadd") if same_names else ():
+        if via == "from_actions":
+            two = Cascade.from_actions(actsB + actsC)
+        elif via == "add":
+            two = Cascade.from_actions(actsB) + Cascade.from_actions(actsC)
+        else:
+            two = Cascade.from_actions(actsB)
+            two += Cascade.from_actions(actsC)
+        bag2 = _name_bag(_graph_nodes(two))
+        if bag2 != bag1:
+            out.append(({"kind": "union-not-deduplicated", "via": via},
+                         f"the union ({via}) of two builds of the same program holds {len(bag2)} nodes ({len(set(bag2))} names), one build holds {len(bag1)}", every))
+        again = _name_bag(_graph_nodes(one))
+        if again != bag1 and earlier is None:
+            earlier = (via, again)
+    after = contents_of(actsB + actsC)
+    ch = changed_contents(before, after)
+    # the one way in which the unchanged code is known to do this: deduplicate_nodes re-wires `node.inputs` to another node
+    # object of the same name (same computation); anything else is a different matter
+    rewire_only = all(fields == ["inputs"] and [(k, pn, on) for k, _, pn, on in before[id(n)][1]["inputs"]] == [(k, pn, on) for k, _, pn, on in after[id(n)][1]["inputs"]]
+                      for n, fields in ch)
+    cause = {"cause": "dedup-rewire"} if ch and rewire_only else {}
+    if earlier:
+        via, again = earlier
+        out.append(({"kind": "union-mutates-operands", "changed": "earlier-union", **cause},
+                     f"after a later union ({via}) that contains the same actions, the union built first holds {len(again)} nodes "
+                     f"({len(set(again))} names) instead of {len(bag1)}: it can no longer be serialised / lowered by name", every))
+    if ch:
+        n, fields = ch[0]
+        out.append(({"kind": "union-mutates-operands", "changed": "inputs-identity" if rewire_only else fields[0], **cause},
+                     f"taking unions changed {fields} of {len(ch)} node objects of existing actions, e.g. {n.name[:24]}…"
+                     + (" (inputs re-wired to other node objects of the same name)" if rewire_only else ""), every))
+    if probe_default:
+        empty0 = len(_graph_nodes(Cascade()))
+        c = Cascade()
+        c += one
+        empty1 = len(_graph_nodes(Cascade()))
+        if empty0 or empty1:
+            out.append(({"kind": "union-leak", "cause": "shared-default-graph"},
+                         f"a new Cascade() holds {empty1} nodes after `c = Cascade(); c += union` (and held {empty0} before): the default graph "
+                         f"is shared between all Cascade() instances and `+=` extends it in place", every))
+    return out
+
+
+def _comp_keys(nodes):
+    """identity of the computation each node denotes (callable object, statics by value, computations of the inputs per
+    parameter, outputs) — independent of names; `nodes` lists inputs before users"""
+    keys = {}
+    for n in nodes:
+        func, args, kwargs = n.payload
+        ins = tuple(sorted((k, keys[id(o.parent)], o.name) for k, o in n.inputs.items()))
+        keys[id(n)] = hash((id(func), tuple(_static_key(a) for a in args), tuple(sorted((k, _static_key(v)) for k, v in kwargs.items())),
+                            ins, tuple(n.outputs)))
+    return keys
 
 
 def _first_diff(n1, n2):
@@ -413,10 +651,16 @@ def _names(action):
     return [(x.parent.name + "." + x.name) if isinstance(x, Output) else x.name for x in (data.flat if data.shape else [data.item()])]
 
 
+def _short(v):
+    r = repr(v)
+    return r if len(r) <= 40 else r[:37] + "…"
+
+
 def _describe(n):
     f, a, k = n.payload
     where = getattr(getattr(f, "__code__", None), "co_firstlineno", "?")
-    return f"{getattr(f, '__name__', '?')}(defined at line {where}){a}{k}<-{ {p: o.parent.name[:12] for p, o in n.inputs.items()} }"
+    return (f"{getattr(f, '__name__', '?')}(defined at line {where})[{', '.join(_short(x) for x in a)}]{{{', '.join(kk + ': ' + _short(v) for kk, v in k.items())}}}"
+            f" outputs={list(n.outputs)}<-{ {p_: o.parent.name[:12] for p_, o in n.inputs.items()} }")
 
 
 def _differs(n1, n2):
@@ -424,8 +668,15 @@ def _differs(n1, n2):
     f2, a2, k2 = n2.payload
     if f1 is not f2:
         return "equal-__name__" if getattr(f1, "__name__", "") == getattr(f2, "__name__", "") else "different-callables"
-    if list(a1) != list(a2) or dict(k1) != dict(k2):
-        return "statics"
+    s1 = (tuple(_static_key(a) for a in a1), tuple(sorted((k, _static_key(v)) for k, v in k1.items())))
+    s2 = (tuple(_static_key(a) for a in a2), tuple(sorted((k, _static_key(v)) for k, v in k2.items())))
+    if s1 != s2:
+        # different statics: did their rendering hide the difference, or was it ignored?
+        try:
+            same_repr = (repr(list(a1)), repr(dict(k1))) == (repr(list(a2)), repr(dict(k2)))
+        except Exception:
+            same_repr = False
+        return "statics-equal-repr" if same_repr else "statics"
     # which input feeds which parameter (the order of the operands is part of the computation)
     i1 = sorted((k, o.parent.name, o.name) for k, o in n1.inputs.items())
     i2 = sorted((k, o.parent.name, o.name) for k, o in n2.inputs.items())
@@ -453,17 +704,19 @@ def model_names(progs, envs, heaps=None):
     from ekw.core import lean_drive
     heaps = heaps or [[] for _ in progs]
     lines, metas = [], []
+    stats = {"heapops": 0, "heapops_out_of_scope": 0, "heapops_err": 0, "nodes_with_unmodelled_statics": 0}
     for prog, env, hops in zip(progs, envs, heaps):
         actions = [r for r in env if not isinstance(r, tuple)]
         nodes = collect_nodes(actions)
         hjson = [rec for _, rec, _ in hops]
-        try:
-            recs = [node_record(n) for n in nodes]
-        except TypeError as e:
-            recs, nodes = [], []
-            metas.append((prog, nodes, recs, [], hops, str(e)))
-            lines.append(json.dumps({"nodes": [], "sources": [], "heapops": hjson}))
-            continue
+        keep_nodes, recs = [], []
+        for n_ in nodes:
+            try:
+                recs.append(node_record(n_))
+                keep_nodes.append(n_)
+            except TypeError:
+                stats["nodes_with_unmodelled_statics"] += 1      # ndarray / object statics: names judged by the oracle only
+        nodes = keep_nodes
         info = prog.get("_srcinfo")
         if info is None:
             info = {k: source_items(r) for k, (st, r) in enumerate(zip(prog["stmts"], env)) if st["op"] == "source" and not isinstance(r, tuple)}
@@ -472,7 +725,6 @@ def model_names(progs, envs, heaps=None):
         metas.append((prog, nodes, recs, srcs, hops, None))
     outs = lean_drive("C14", lines)
     bad = []
-    stats = {"heapops": 0, "heapops_out_of_scope": 0, "heapops_err": 0}
     for (prog, nodes, recs, srcs, hops, err), line in zip(metas, outs):
         m = json.loads(line)
         for (k, rec, real), mo in zip(hops, m.get("heapops", [])):
@@ -521,6 +773,18 @@ def _witnesses():
         # func hands back an action built before (not the receiver): several parameters / one parameter
         {"stmts": [S, T, {"op": "transform", "a": 0, "func": "lookup", "r": [1, 1], "params": [0, 1], "dim": "t", "axis": 0}], "internal": [], "vseed": 0, "float": False},
         {"stmts": [S, T, {"op": "transform", "a": 0, "func": "lookup", "r": [1], "params": [0], "dim": ["t", ["x"]], "axis": 0}], "internal": [], "vseed": 0, "float": False},
+        # the same callable with one output and with two outputs (yields)
+        {"stmts": [S, {"op": "map", "a": 0, "fn": "neg"}, {"op": "map", "a": 0, "fn": "neg", "yields": ["y", [0, 1]]}], "internal": [], "vseed": 0, "float": False},
+        # statics whose repr hides the difference (2000-element arrays that differ at index 1000) / shows an address
+        {"stmts": [S, {"op": "map", "a": 0, "fn": "keep", "static": {"big": "A"}}, {"op": "map", "a": 0, "fn": "keep", "static": {"big": "B"}}], "internal": [], "vseed": 0, "float": False},
+        {"stmts": [S, {"op": "map", "a": 0, "fn": "keep", "static": {"config": 1}}], "internal": [], "vseed": 0, "float": False},
+        {"stmts": [S, {"op": "map", "a": 0, "fn": "keep", "static": {"newconfig": 1}}], "internal": [], "vseed": 0, "float": False},
+        # dict-valued keyword arguments, nested lists
+        {"stmts": [S, {"op": "map", "a": 0, "fn": "keep", "static": {"kwdict": {"a": 1}}}, {"op": "map", "a": 0, "fn": "keep", "static": {"kwdict": {"a": 2}}},
+                   {"op": "map", "a": 0, "fn": "keep", "static": {"nested": [[1, 2], 3]}}, {"op": "map", "a": 0, "fn": "keep", "static": {"nested": [[1], 2, 3]}}],
+         "internal": [], "vseed": 0, "float": False},
+        # operations that hand back the action itself, then an in-place candidate on the alias
+        {"stmts": [S, {"op": "alias", "a": 0, "how": "select"}, {"op": "transform", "a": 1, "func": "ident", "params": [0], "dim": "t", "axis": 0}], "internal": [], "vseed": 0, "float": False},
     ]
 
 
@@ -569,17 +833,18 @@ def _shrink(prog, roots, sig, failing=None):
 
 # ----------------------------------------------------------------------------- fresh interpreters
 
-def _fresh_differs(prog, here=None):
+def _fresh_differs(prog, here=None, env=None):
     """build `prog` twice in a fresh interpreter; (statement, text) of the first difference between those two builds
     (and the builds of this process), or None"""
     from ekw import c14_fresh as X
     res = X.collect(X.spawn([prog]))
     if not res or "b1" not in res[0]:
         return None
-    return _judge_fresh(prog, res[0], here)
+    return _judge_fresh(prog, res[0], here, env)
 
 
-def _judge_fresh(prog, res, here):
+def _judge_fresh(prog, res, here, env=None):
+    """(statement, text, cause) of the first difference, or None"""
     from ekw import c14_fresh as X
     builds = [res["b1"], res["b2"]] + ([here] if here is not None else [])
     k = X.first_difference(*builds)
@@ -590,7 +855,11 @@ def _judge_fresh(prog, res, here):
     which = "its first and second build in a fresh interpreter" if col[0] != col[1] else "a fresh interpreter and the check process"
     a, b = (col[0], col[1]) if col[0] != col[1] else (col[0], col[-1])
     d = _first_diff(a, b) if isinstance(a, list) and isinstance(b, list) else f"{a} vs {b}"
-    return k, f"statement {k} {st}: building the same program again gives different node names — {which} disagree ({d})"
+    cause = None
+    if env is not None and k < len(env) and not isinstance(env[k], tuple):
+        cause = _address_static(env[k])
+    return (k, f"statement {k} {st}: building the same program again gives different node names — {which} disagree ({d})"
+            + (f"; a static argument is rendered with its address: {cause}" if cause else ""), cause)
 
 
 def correspond(ctx):
@@ -618,13 +887,14 @@ def correspond(ctx):
     envs, heaps = [], []
     reported = set()
     here = {}
-    for p in progs:
+    for pi, p in enumerate(progs):
         hops = []
         try:
-            env, viol = oracle_program(p, hops)
+            env, viol = oracle_program(p, hops, probe_default=pi < 2)
         except Exception as e:   # the oracle itself must not crash the check
             ctx.notes.append(f"oracle error {type(e).__name__}: {str(e)[:100]}")
             env, viol, hops = F.run_real(p), [], []
+        ctx.count("results_that_are_an_existing_action_object", len(p.get("_aliases", [])))
         envs.append(env)
         heaps.append(hops)
         here[id(p)] = X.names_of_env(env)
@@ -648,26 +918,33 @@ def correspond(ctx):
     for prog, where, case, model, impl in bad:
         ctx.disagree(where, {"stmts": prog["stmts"][:10], **case}, model, impl)
     # (a') the builds of the fresh interpreters
-    sig = {"kind": "not-deterministic", "what": "names"}
+    env_of = {id(p): e for p, e in zip(progs, envs)}
     for sl, h in zip(slices, handles):
         res = X.collect(h)
         if res is None:
-            ctx.notes.append("a fresh interpreter did not answer; its programs were only compared within this process")
+            res = X.collect(X.spawn(sl))     # once more, alone
+        if res is None:
+            # not a note: without the fresh builds clause "building the same program twice" is only half checked
+            ctx.disagree("fresh-interpreter", {"programs": len(sl), "first": sl[0]["stmts"][:6] if sl else None},
+                         "a fresh interpreter builds the programs and reports their names", "no answer (twice)")
             continue
         for p, r in zip(sl, res):
             if "b1" not in r:
-                ctx.notes.append("fresh interpreter: " + str(r.get("crash"))[:100])
+                ctx.disagree("fresh-interpreter", {"stmts": p["stmts"][:10]}, "the program builds as it does in the check process", str(r.get("crash"))[:160])
                 continue
             ctx.count("programs_built_in_fresh_interpreter")
-            verdict = _judge_fresh(p, r, here.get(id(p)))
+            verdict = _judge_fresh(p, r, here.get(id(p)), env_of.get(id(p)))
             if verdict is None:
                 continue
             ctx.count("oracle:not-deterministic")
+            k, text, cause = verdict
+            sig = {"kind": "not-deterministic", "what": "names"}
+            if cause:
+                sig["cause"] = "address-in-repr"
             key = json.dumps(sig, sort_keys=True) + "fresh"
             if key in reported:
                 continue
             reported.add(key)
-            k, text = verdict
             small = _shrink(p, [k], sig, failing=lambda q: _fresh_differs(q) is not None)
             ctx.violation(sig, {"prog": small, "fresh": True}, text)
 
@@ -684,6 +961,11 @@ def _count_features(ctx, p, env):
             if (st["op"], st.get("fn"), st["b"], st["a"]) in by_pair and st["a"] != st["b"]:
                 ctx.count("binary_with_swapped_operands_ok")
             by_pair[(st["op"], st.get("fn"), st["a"], st["b"])] = k
+        if st["op"] in ("map", "reduce") and st.get("yields") and ok:
+            if any(q["op"] == st["op"] and q.get("a") == st["a"] and q.get("fn") == st.get("fn") and not q.get("yields") for q in p["stmts"][:k]):
+                ctx.count("same_callable_one_and_several_outputs_ok")
+        if "static" in st and ok:
+            ctx.count("static:" + next(iter(st["static"])))
         if st["op"] == "transform" and st.get("func") == "lookup":
             ctx.count("transform_lookup" + ("_ok" if ok else "_raises"))
             if ok and any(j != st["a"] for j in st["r"]):
@@ -709,7 +991,9 @@ def _safe_nodes(env):
 
 
 def _unknown_violation(ctx):
-    return any(not all(v["signature"].get(a) == b for a, b in KNOWN_COLLISION.items()) for v in ctx.violations)
+    from ekw.core import load_known, match_known
+    known = load_known()
+    return any(match_known(PROPERTY, v["signature"], known) is None for v in ctx.violations)
 
 
 def search(ctx, why):
@@ -730,7 +1014,7 @@ def search(ctx, why):
         # state that survives between builds shows only in a pristine process
         for p in _witnesses()[:ctx.budget(2, 4)]:
             v = _fresh_differs(p)
-            if v:
+            if v and not v[2]:
                 ctx.violation({"kind": "not-deterministic", "what": "names"}, {"prog": _clean(p), "fresh": True}, v[1])
                 break
 
@@ -743,14 +1027,14 @@ def replay(payload):
     from ekw import c14_fresh as X
     case = payload["case"]
     prog = case["prog"]
-    env, viol = oracle_program(prog)
+    env, viol = oracle_program(prog, probe_default=True)
     for k, (st, r) in enumerate(zip(prog["stmts"], env)):
         print(k, st, "->", r if isinstance(r, tuple) else _names(r)[:4])
     bad = [(v[0], v[1]) for v in viol]
     if case.get("fresh"):
-        v = _fresh_differs(prog, X.names_of_env(env))
+        v = _fresh_differs(prog, X.names_of_env(env), env)
         if v:
-            bad.append(({"kind": "not-deterministic", "what": "names"}, v[1]))
+            bad.append(({"kind": "not-deterministic", "what": "names", **({"cause": "address-in-repr"} if v[2] else {})}, v[1]))
     for sig, text in bad:
         print("oracle:", sig, text)
     return 1 if bad else 0
